@@ -12,7 +12,7 @@ c03_hist : a pool (maxsize 1..2) serves 2 (quick) / 3 (thorough) requests /r1, /
 """
 from __future__ import annotations
 
-from kit.h import P, run, mark, known, concretize
+from kit.h import P, run, mark, known, concretize, decode_point
 from kit import net as N
 from kit import env as E
 
@@ -219,49 +219,72 @@ def _hist_body(maxsize, b1, d1, k1, late1, b2, d2, k2, late2, b3, d3, k3, retry2
         E.uninstall_clock()
 
 
-def c03_hist(maxsize: int, b1: int, d1: int, k1: int, late1: bool, b2: int, d2: int, k2: int, late2: bool,
-             b3: int, d3: int, k3: int, retry2: bool) -> bool:
+def _opts(bs, ds, ks, late_ok):
+    out = []
+    for b in bs:
+        for d in ds:
+            if b == B_GARBAGE and d != D_READ:
+                continue
+            for k in (ks if d == D_READK_RELEASE else ks[:1]):
+                lates = [False]
+                if late_ok and ((d in (1, 2, 6) and b in (0, 2, 12)) or (b == 11 and d in (0, 1, 3, 5))):
+                    lates = [False, True]
+                for late in lates:
+                    out.append((b, d, k, late))
+    return out
+
+
+def hist_dims(part):
+    dims = [list(range(1, part["maxsize"] + 1)), _opts(part["b1s"], part["d1s"], part["ks"], True),
+            _opts(part["b2s"], part["d2s"], part["ks"], part["n"] >= 3), [False, True]]
+    if part["n"] >= 3:
+        dims.append(_opts(part["b3s"], part["d3s"], [3], False))
+    return dims
+
+
+def _hist_point(idx):
+    vals = decode_point(idx, hist_dims(P))
+    maxsize, (b1, d1, k1, late1), (b2, d2, k2, late2), retry2 = vals[:4]
+    b3, d3, k3 = (vals[4][0], vals[4][1], vals[4][2]) if len(vals) > 4 else (0, 0, 0)
+    return N._untraced(_hist_body)(maxsize, b1, d1, k1, late1, b2, d2, k2, late2, b3, d3, k3, retry2)
+
+
+def c03_hist(idx: int) -> bool:
     """
-    pre: 1 <= maxsize <= P.maxsize and b1 in P.b1s and d1 in P.d1s and 0 <= b2 <= 12 and b2 in P.b2s and 0 <= d2 <= 7 and d2 in P.d2s
-    pre: k1 in P.ks and k2 in P.ks and (d1 == 1 or k1 == P.ks[0]) and (d2 == 1 or k2 == P.ks[0])
-    pre: (d1 in (1, 2, 6) and b1 in (0, 2, 12)) or (b1 == 11 and d1 in (0, 1, 3, 5)) or not late1
-    pre: (P.n >= 3 and d2 in (1, 2, 6) and b2 in (0, 2, 12)) or not late2
-    pre: (P.n >= 3 and b3 in P.b3s and d3 in P.d3s and k3 == 3) or (b3 == 0 and d3 == 0 and k3 == 0)
+    pre: 0 <= idx < P.npoints
     post: _
     """
-    return run(_hist_body, maxsize, b1, d1, k1, late1, b2, d2, k2, late2, b3, d3, k3, retry2)
+    return run(_hist_point, idx)
 
 
 def JOBS(tier):
+    from kit.h import space_size
     quick = tier == "quick"
-    t = 150 if quick else 900
+    t = 170 if quick else 900
     jobs = []
     allb = list(range(13))
     alld = list(range(8))
+
+    def add(part):
+        part["npoints"] = space_size(hist_dims(part))
+        jobs.append({"func": "c03_hist", "timeout": t, "path_timeout": 60, "samples": 1, "part": part})
     for b1 in allb:
-        for d1 in alld:
-            if quick and d1 in (D_STREAM,) and b1 not in (B_CHUNKED, B_CL):
-                continue
-            if b1 == B_GARBAGE and d1 != D_READ:
-                continue
-            jobs.append({"func": "c03_hist", "timeout": t, "path_timeout": 60,
-                         "part": {"n": 2, "maxsize": 1 if quick else 2, "b1s": [b1], "d1s": [d1], "b2s": allb if not quick else [0, 2, 4, 5, 8],
-                                  "d2s": [D_READ, D_READK_RELEASE, D_PRELOAD] if quick else alld, "ks": [3, 4] if quick else [0, 3, 4, 10, 11],
-                                  "b3s": [0], "d3s": [0]}})
+        add({"n": 2, "maxsize": 1 if quick else 2, "b1s": [b1], "d1s": alld, "b2s": allb if not quick else [0, 2, 4, 5, 8, 11],
+             "d2s": [D_READ, D_READK_RELEASE, D_PRELOAD, D_STREAM] if quick else alld, "ks": [3, 4] if quick else [0, 3, 4, 10, 11],
+             "b3s": [0], "d3s": [0]})
     if not quick:
-        for b1 in (B_CL, B_CHUNKED, B_204_STRAY, B_CL_STRAY, B_EARLY_EOF):
-            for d1 in (D_READK_RELEASE, D_RELEASE, D_STREAM1_RELEASE, D_READ):
-                for b2 in (B_CL, B_CHUNKED, B_HEAD_STRAY):
-                    jobs.append({"func": "c03_hist", "timeout": t, "path_timeout": 60,
-                                 "part": {"n": 3, "maxsize": 2, "b1s": [b1], "d1s": [d1], "b2s": [b2], "d2s": [D_READK_RELEASE, D_RELEASE, D_READ],
-                                          "ks": [3], "b3s": [B_CL, B_CHUNKED, B_204_STRAY], "d3s": [D_READ, D_PRELOAD]}})
+        for b1 in (B_CL, B_CHUNKED, B_204_STRAY, B_CL_STRAY, B_EARLY_EOF, B_CL_NESTED, B_CHUNKED_LIE):
+            for b2 in (B_CL, B_CHUNKED, B_HEAD_STRAY, B_CL_NESTED):
+                add({"n": 3, "maxsize": 2, "b1s": [b1], "d1s": [D_READK_RELEASE, D_RELEASE, D_STREAM1_RELEASE, D_READ], "b2s": [b2],
+                     "d2s": [D_READK_RELEASE, D_RELEASE, D_READ], "ks": [3, 4], "b3s": [B_CL, B_CHUNKED, B_204_STRAY],
+                     "d3s": [D_READ, D_PRELOAD]})
     return jobs
 
 
 EVIDENCE = {
     "bounds": {"quick": "histories of 2 requests on a pool of maxsize 1: first request = every (server behaviour x caller disposal) pair of 13 "
-                        "behaviours x 8 disposals, remainder in flight or delivered; second request = 5 behaviours x {read, read(k)+release, "
-                        "preload} x retries on/off",
+                        "behaviours x 8 disposals, remainder in flight or delivered; second request = 6 behaviours x {read, read(k)+release, "
+                        "preload, stream} x retries on/off; every history is one solver model of a single index variable",
                "thorough": "maxsize <= 2, every behaviour and disposal for both requests, k in {0,3,10,11}; histories of 3 requests for 60 first-two "
                            "combinations"},
     "outside": ["a peer that injects unsolicited bytes while the client is already waiting for the next response (no client can tell)",
